@@ -349,6 +349,68 @@ def check_dynamic_classes(run, ix):
                              'registration: %s' % (cname, r[0] if r else None), line=node.lineno))
 
 
+def check_context_rebuild(run, ix):
+    """P-R7 (third C40 hunt; repairs 769f5ee, cc67087).  The classes of numbers and matrices are created per context with
+    type(name, (base,), {}); pickle finds a class by module and name, and only the classes of the global mp context are
+    registered under their names (P-R4).  The matrix class is created by code that the fp and iv contexts run too, and
+    the interval classes belong to iv alone: their instances can be pickled only if the BASE class reduces them to a
+    module-level function that rebuilds the value through its global context.  Decided: `_matrix` defines
+    `__reduce_ex__`, `ivmpf` and `ivmpc` define `__reduce__`, each returning (directly or through one module-level
+    helper) a tuple whose first element is a function defined at module level; `ivmpf_constant` defines `__copy__` and
+    `__deepcopy__` returning the object itself (its constructor needs an argument: the default copy raises)."""
+    IV = 'mpmath/ctx_iv.py'
+
+    def rebuilds(m, fn, depth=0):
+        """a Return of fn yields (module-level function, ...) -- directly or through one helper"""
+        for r in _walk_own(fn.node):
+            if not (isinstance(r, ast.Return) and r.value is not None):
+                continue
+            v = r.value
+            if isinstance(v, ast.Tuple) and v.elts and isinstance(v.elts[0], ast.Name) and \
+                    v.elts[0].id in m.funcs and m.funcs[v.elts[0].id].parent is None:
+                return v.elts[0].id
+            if isinstance(v, ast.Call) and isinstance(v.func, ast.Name) and v.func.id in m.funcs and depth < 1:
+                got = rebuilds(m, m.funcs[v.func.id], depth + 1)
+                if got:
+                    return got
+        return None
+    for rel, cname, hooks in ((MAT, '_matrix', ('__reduce_ex__', '__reduce__')),
+                              (IV, 'ivmpf', ('__reduce__', '__reduce_ex__')),
+                              (IV, 'ivmpc', ('__reduce__', '__reduce_ex__'))):
+        m = ix.module(rel)
+        ci = m.classes.get(cname)
+        if ci is None:
+            raise AnalysisError('class %s vanished' % cname)
+        fn = None
+        for h in hooks:
+            fn = fn or ci.methods.get(h)
+        target = rebuilds(m, fn) if fn is not None else None
+        if target:
+            run.ok('P-R7', '%s.%s rebuilds through the module-level function %s' % (cname, fn.name, target))
+        else:
+            run.fail(Finding('P-R7', rel, cname, 'class %s' % cname,
+                             'instances of the per-context class made from %s are pickled by the default protocol, which '
+                             'looks the class up by name and finds the base class (or the class of the mp context): '
+                             'pickle.dumps(%s) raises PicklingError under every protocol'
+                             % (cname, 'fp.matrix([[1.5, 2]])' if cname == '_matrix' else 'iv.mpf([1, 2])'),
+                             line=ci.node.lineno))
+    m = ix.module(IV)
+    ci = m.classes.get('ivmpf_constant')
+    if ci is None:
+        raise AnalysisError('class ivmpf_constant vanished')
+    for h in ('__copy__', '__deepcopy__'):
+        fn = ci.methods.get(h)
+        me = fn.params[0] if fn is not None and fn.params else None
+        rets = [r for r in _walk_own(fn.node) if isinstance(r, ast.Return)] if fn is not None else []
+        if rets and all(isinstance(r.value, ast.Name) and r.value.id == me for r in rets):
+            run.ok('P-R7', 'ivmpf_constant.%s returns the constant itself' % h)
+        else:
+            run.fail(Finding('P-R7', IV, 'ivmpf_constant', 'def %s' % h,
+                             'an interval constant has no %s: the default copy calls the class without its argument and '
+                             'copy.copy(iv.pi) raises TypeError (so does deepcopy of any structure holding one)' % h,
+                             line=ci.node.lineno))
+
+
 def check_matrix_copy(run, ix):
     m = ix.module(MAT)
     c = m.classes['_matrix']
@@ -479,3 +541,5 @@ def run(run, ix, tier):
     check_dynamic_classes(run, ix)
     check_matrix_copy(run, ix)
     check_constant_entries(run, ix)
+    run.rule('P-R7', floor=5, desc='matrices of fp / iv and interval numbers are rebuilt through their global context')
+    check_context_rebuild(run, ix)
